@@ -1,5 +1,6 @@
 """C04 -- diagnostics and score attached to a design belong to its reported geos."""
 from . import searchfam, search_oracles as so
+from . import common
 from .c01 import RULE
 
 RULE_C04 = (RULE + '; plus cases with n_designs = 50 (many retained designs) and windows shorter than the data; plus one data '
@@ -24,7 +25,7 @@ def many_designs(ck, tier):
   """Cases that retain several designs (so that a shared or later-overwritten object would show)."""
   from . import search
   out = []
-  for k in range(60 if tier == 'quick' else 1200):
+  for k in range(common.sz(tier, 60, 1200)):
     c = search.gen_case(ck.seed * 23 + 5000 + k, tier)
     c['par']['n_designs'] = 50
     c['par']['n_pretest_max'] = [90, c['n_dates'] - 4, 12, 15][k % 4]
@@ -72,7 +73,7 @@ def case_geo_order(case):
 
 def shared_stage(ck, tier):
   from . import search, common
-  n = 30 if tier == 'quick' else 600
+  n = common.sz(tier, 30, 600)
   cases = []
   for k in range(n):
     c = search.gen_case(ck.seed * 29 + 9000 + k, tier, max_geos=5)
